@@ -23,7 +23,7 @@ ASSUMPTIONS = [
 
 SIGMA_Q = ["a", "b", "1", "0", "+", "-", "*", "/", ":", "**", "%in%", "~", "|", "(", ")", "."]
 SIGMA_T = SIGMA_Q + ["c", "2", "2.5", "^"]
-SIGMA_K = ["a", "`x y`", "log(a)", "{a+b}", "`p:q`", "1", "+", "-", ":", "*", "(", ")", "~", "."]
+SIGMA_K = ["a", "`x y`", "log(a)", "{a+b}", "`p:q`", "`0`", "`1`", "0", "1", "+", "-", ":", "*", "(", ")", "~", "."]
 AVAILS = [["a", "b", "c"], [], ["a"], ["c", "a", "b"]]
 
 PINNED = {
@@ -78,16 +78,20 @@ def compare(col, tokens, s, icpt, flags, avail, tag):
     if ref[0] == "UNSPEC":
         col.count("unspecified")
         return ref, got
+    # a quoted NAME whose text is also present as a numeric LITERAL (e.g. `1` next to the implicit intercept): see known finding K2
+    lits = {t for t in tokens if W.is_lit(t)} | ({"1"} if (icpt or "0" in tokens) else set())
+    clash = any(t.startswith("`") and t.endswith("`") and t[1:-1] in lits for t in tokens)
+    suffix = ":quoted-name-equals-literal" if clash else ""
     if ref[0] == "OK":
         if any(t in W.PREC or t == "." for t in tokens):
             col.interesting()
         if got[0] == "OK":
             if got[1] != ref[1]:
-                col.violation(key, detail, sig="wrong-terms")
+                col.violation(key, detail, sig="wrong-terms" + suffix)
             else:
                 col.count("agree-accept")
         else:
-            col.violation(key, detail, sig="rejects-valid")
+            col.violation(key, detail, sig="rejects-valid" + suffix)
     else:
         if got[0] == "OK":
             col.violation(key, detail, sig="accepts-invalid")
